@@ -54,6 +54,8 @@ Record cfg := {
   c_ordered : bool;   (* true: checkpoint writes and deletes of one session take effect in issue order
                          (repaired); false: an asynchronous Put applies whenever it completes (today) *)
   c_reserve : bool;   (* true: PPPoE installInMemoryState re-reserves addresses (repaired); IPoE always does *)
+  c_delretry : bool;  (* true: a checkpoint Delete that fails with a Store error is repeated until it succeeds
+                         (repaired); false: deleteSessionCheckpoint only logs the error (today) *)
   c_n4 : N; c_n6 : N; c_npd : N }.
 
 Definition code (f a : N) : N := 3 * a + f.
@@ -100,7 +102,7 @@ Definition swif_base : N := 100.
 Inductive tok :=
 | TA (i sw : N) | TAF (i : N) | TU (i : N) | TV (i : N)
 | T4 (i : N) (a : N) | T6 (i : N) (a : N) | TP (i : N) (a : N)
-| TR (i cause : N) | TL (i : N) | TDEL (i : N) | TSP (i : N) | TSD (i : N) | TSPF (i : N) | TCKSERR.
+| TR (i cause : N) | TL (i : N) | TDEL (i : N) | TSP (i : N) | TSD (i : N) | TSPF (i : N) | TCKSERR | TSDF (i : N).
 
 (* ---- state ---- *)
 Record st := {
@@ -114,11 +116,13 @@ Record st := {
   dpnext : N;
   released : list N;                (* ghost: sessions released so far *)
   used : list N;                    (* ghost: session identities ever created (identities are never reused) *)
-  poison : list (N * bool) }.       (* fault plan: ticket -> its Put returns a transient Store error (true: every attempt) *)
+  poison : list (N * bool);         (* fault plan: ticket -> its Put returns a transient Store error (true: always) *)
+  completed : list (N * N) }.       (* history record: (session, stamp) of every checkpoint image that took effect in
+                                       the store (synchronous checkpoint, or completed effective asynchronous Put) *)
 
 Definition init : st :=
   {| store := []; pend := []; tick := 0; applied := []; live := []; leases := []; dp := [];
-     dpnext := swif_base; released := []; used := []; poison := [] |}.
+     dpnext := swif_base; released := []; used := []; poison := []; completed := [] |}.
 
 (* ---- allocator ---- *)
 (* Registry.Reserve*: only a pool that contains the address records it; a lease held by another owner is a
@@ -195,6 +199,7 @@ Inductive op :=
                                                  simply stays pending) *)
 | Poison (t : N) (always : bool)              (* fault plan: the Put with ticket t will return a Store error *)
 | CksF (i : N)                                (* checkpointSessionSync whose Store.Put returns an error *)
+| RelF (i : N)                                (* release whose checkpoint Delete returns a (transient) Store error *)
 | Crash (preserved : bool) (fail : option N) (now : Z).   (* stop; new incarnation restores from the store *)
 
 Inductive out :=
@@ -203,7 +208,7 @@ Inductive out :=
 | OCrash (lg : list tok).
 
 Definition upd_store s v := {| store := v; pend := pend s; tick := tick s; applied := applied s; live := live s;
-  leases := leases s; dp := dp s; dpnext := dpnext s; released := released s; used := used s; poison := poison s |}.
+  leases := leases s; dp := dp s; dpnext := dpnext s; released := released s; used := used s; poison := poison s; completed := completed s |}.
 
 Definition is_some {A} (o : option A) : bool := match o with Some _ => true | None => false end.
 Definition is_alloc (a : aspec) : bool := match a with AAlloc => true | _ => false end.
@@ -231,7 +236,7 @@ Definition do_new (c : cfg) (s : st) (n : newspec) (o4 o6 opd : option N) : opti
           else (r0, dp s, dpnext s) in
         Some ({| store := store s; pend := pend s; tick := tick s; applied := applied s;
                  live := aput (n_id n) r (live s); leases := l3; dp := d; dpnext := nx;
-                 released := released s; used := n_id n :: used s; poison := poison s |},
+                 released := released s; used := n_id n :: used s; poison := poison s; completed := completed s |},
               ONew a4 a6 apd (is_alloc (n_a4 n) && negb (is_some a4)) (is_alloc (n_a6 n) && negb (is_some a6))
                    (is_alloc (n_apd n) && negb (is_some apd)))
       end
@@ -246,7 +251,7 @@ Definition do_ck (s : st) (i : N) : st * out :=
     let r' := set_stamp r t in
     ({| store := store s; pend := pend s ++ [(t, r')]; tick := t + 1; applied := applied s;
         live := aput i r' (live s); leases := leases s; dp := dp s; dpnext := dpnext s;
-        released := released s; used := used s; poison := poison s |}, OCk t [])
+        released := released s; used := used s; poison := poison s; completed := completed s |}, OCk t [])
   end.
 
 Definition do_cks (s : st) (i : N) : st * out :=
@@ -257,7 +262,8 @@ Definition do_cks (s : st) (i : N) : st * out :=
     let r' := set_stamp r t in
     ({| store := aput i r' (store s); pend := pend s; tick := t + 1; applied := aput i t (applied s);
         live := aput i r' (live s); leases := leases s; dp := dp s; dpnext := dpnext s;
-        released := released s; used := used s; poison := poison s |}, OCks t [TSP i])
+        released := released s; used := used s; poison := poison s; completed := (i, t) :: completed s |},
+     OCks t [TSP i])
   end.
 
 Definition do_rel (s : st) (i : N) : st * out :=
@@ -269,7 +275,7 @@ Definition do_rel (s : st) (i : N) : st * out :=
     ({| store := aremove i (store s); pend := pend s; tick := t + 1; applied := aput i t (applied s);
         live := aremove i (live s); leases := release_all (leases s) (addrs r);
         dp := if hasdp then aremove i (dp s) else dp s; dpnext := dpnext s;
-        released := i :: released s; used := used s; poison := poison s |},
+        released := i :: released s; used := used s; poison := poison s; completed := completed s |},
      ORel ((if hasdp then [TDEL i] else []) ++ [TSD i; TL i]))
   end.
 
@@ -279,7 +285,7 @@ Definition effective (c : cfg) (s : st) (i t : N) : bool :=
 
 Definition set_pend_poison (s : st) (pd : list (N * sess)) (po : list (N * bool)) : st :=
   {| store := store s; pend := pd; tick := tick s; applied := applied s; live := live s; leases := leases s;
-     dp := dp s; dpnext := dpnext s; released := released s; used := used s; poison := po |}.
+     dp := dp s; dpnext := dpnext s; released := released s; used := used s; poison := po; completed := completed s |}.
 
 Definition do_done_core (c : cfg) (s : st) (t : N) (retried : bool) : st * out :=
   match aget t (pend s) with
@@ -295,11 +301,13 @@ Definition do_done_core (c : cfg) (s : st) (t : N) (retried : bool) : st * out :
       if effective c s i t then
         ({| store := aput i r (store s); pend := aremove t (pend s); tick := tick s;
             applied := aput i t (applied s); live := live s; leases := leases s; dp := dp s;
-            dpnext := dpnext s; released := released s; used := used s; poison := poison s |}, ODone false)
+            dpnext := dpnext s; released := released s; used := used s; poison := poison s;
+            completed := match s_stamp r with Some ts => (i, ts) :: completed s | None => completed s end |},
+         ODone false)
       else
         ({| store := store s; pend := aremove t (pend s); tick := tick s; applied := applied s;
             live := live s; leases := leases s; dp := dp s; dpnext := dpnext s; released := released s;
-            used := used s; poison := poison s |}, ODone false)
+            used := used s; poison := poison s; completed := completed s |}, ODone false)
     end
   end.
 
@@ -335,7 +343,35 @@ Definition do_cksf (c : cfg) (s : st) (i : N) : st * out :=
     let r' := set_stamp r t in
     ({| store := store s1; pend := pend s1; tick := t + 1; applied := applied s1;
         live := aput i r' (live s1); leases := leases s1; dp := dp s1; dpnext := dpnext s1;
-        released := released s1; used := used s1; poison := poison s1 |}, OCks t [TSPF i; TCKSERR])
+        released := released s1; used := used s1; poison := poison s1; completed := completed s1 |}, OCks t [TSPF i; TCKSERR])
+  end.
+
+(* the lowest pending ticket of session i that can still take effect: under an ordering writer that is the write
+   at the Store (entries superseded by a later write that took effect are only bookkeeping) *)
+Fixpoint first_of (c : cfg) (s : st) (i : N) (pd : list (N * sess)) : option N :=
+  match pd with
+  | [] => None
+  | (t, r) :: rest => if (s_id r =? i) && effective c s i t then Some t else first_of c s i rest
+  end.
+
+(* release whose Delete fails.  The Delete has waited for the write that was at the Store (it takes effect), the
+   queued Puts issued before it are skipped as obsolete, then the Store returns an error.  Today the error is only
+   logged: the image stays and the session is nevertheless released.  Repaired: the Delete is repeated and succeeds. *)
+Definition do_relf (c : cfg) (s : st) (i : N) : st * out :=
+  match aget i (live s) with
+  | None => (s, OSkip)
+  | Some r =>
+    let s1 := if c_ordered c then
+                match first_of c s i (pend s) with Some t0 => fst (do_done_core c s t0 false) | None => s end
+              else s in
+    let t := tick s1 in
+    let hasdp := negb (s_swif r =? 0) in
+    ({| store := if c_delretry c then aremove i (store s1) else store s1;
+        pend := pend s1; tick := t + 1; applied := aput i t (applied s1);
+        live := aremove i (live s1); leases := release_all (leases s1) (addrs r);
+        dp := if hasdp then aremove i (dp s1) else dp s1; dpnext := dpnext s1;
+        released := i :: released s1; used := used s1; poison := poison s1; completed := completed s1 |},
+     ORel ((if hasdp then [TDEL i] else []) ++ [TSDF i; TL i] ++ (if c_delretry c then [TSD i] else [])))
   end.
 
 (* ---- restore ---- *)
@@ -372,7 +408,7 @@ Definition install (c : cfg) (s : st) (k : N) (r : sess) : st :=
   let res := match c_proto c with IPoE => true | PPPoE => c_reserve c end in
   {| store := store s; pend := pend s; tick := tick s; applied := applied s; live := aput k r (live s);
      leases := if res then reserve_all c k (leases s) (addrs r) else leases s;
-     dp := dp s; dpnext := dpnext s; released := released s; used := used s; poison := poison s |}.
+     dp := dp s; dpnext := dpnext s; released := released s; used := used s; poison := poison s; completed := completed s |}.
 
 Definition restore_one (c : cfg) (now : Z) (fail : option N) (cause : N) (store0 : list (N * sess))
            (acc : st * list tok) (k : N) : st * list tok :=
@@ -396,7 +432,7 @@ Definition restore_one (c : cfg) (now : Z) (fail : option N) (cause : N) (store0
             let t := tick s1 in
             ({| store := store s1; pend := pend s1 ++ [(t, r')]; tick := t + 1; applied := applied s1;
                 live := aput k r' (live s1); leases := leases s1; dp := dp_prog k r d1; dpnext := nx1;
-                released := released s1; used := used s1; poison := poison s1 |},
+                released := released s1; used := used s1; poison := poison s1; completed := completed s1 |},
              lg ++ prog_log c k sw r ++ [TR k cause])
         else (s1, lg)
   end.
@@ -406,7 +442,7 @@ Definition do_crash (c : cfg) (s : st) (preserved : bool) (fail : option N) (now
   let nx := if preserved then dpnext s else swif_base in
   let cause := match d with [] => 1 | _ => 0 end in      (* 0 osvbngd_restart, 1 vpp_recovery *)
   let s0 := {| store := store s; pend := []; tick := tick s; applied := applied s; live := [];
-               leases := []; dp := d; dpnext := nx; released := released s; used := used s; poison := [] |} in
+               leases := []; dp := d; dpnext := nx; released := released s; used := used s; poison := []; completed := completed s |} in
   let '(s1, lg) := fold_left (restore_one c now fail cause (store s)) (isort (map fst (store s))) (s0, []) in
   (s1, OCrash lg).
 
@@ -419,6 +455,7 @@ Definition step (c : cfg) (s : st) (o : op) : option (st * out) :=
   | Done t rt => Some (do_done c s t rt)
   | Poison t al => Some (do_poison s t al)
   | CksF i => Some (do_cksf c s i)
+  | RelF i => Some (do_relf c s i)
   | Crash p f now => Some (do_crash c s p f now)
   end.
 
@@ -434,6 +471,6 @@ Definition free_of (c : cfg) (s : st) (f : N) : list N :=
   filter (fun a => negb (amem (code f a) (leases s))) (nrange (fam_size c f)).
 
 Definition repaired (p : proto) (n4 n6 npd : N) : cfg :=
-  {| c_proto := p; c_ordered := true; c_reserve := true; c_n4 := n4; c_n6 := n6; c_npd := npd |}.
+  {| c_proto := p; c_ordered := true; c_reserve := true; c_delretry := true; c_n4 := n4; c_n6 := n6; c_npd := npd |}.
 Definition today (p : proto) (n4 n6 npd : N) : cfg :=
-  {| c_proto := p; c_ordered := false; c_reserve := false; c_n4 := n4; c_n6 := n6; c_npd := npd |}.
+  {| c_proto := p; c_ordered := false; c_reserve := false; c_delretry := false; c_n4 := n4; c_n6 := n6; c_npd := npd |}.
